@@ -278,6 +278,64 @@ def registerHandlers (f : Facts) : List Top → St → Res
   | _ :: r, s => registerHandlers f r s
 end
 
+/-! ### what the builder depends on (Tie A: `Generated.C17`)
+
+`register` reads `Facts.mods` and `Facts.isInit` and nothing else; in particular the exclusion verdicts
+(`Facts.excluded`, i.e. `-x` (`--exclude`)) and the decorators of a `def` / `class` play no role in what is
+registered. That is a transcription of the following facts about the source, each regenerated from
+the working tree on every run. -/
+
+/-- every read off `Config()` in rattr/models/context/*.py and rattr/models/symbol/*.py: the
+current file (for relative imports: `Top.importFrom`'s `abs`) and the literal prefix — no option. -/
+def configReads : List (String × String × String) :=
+  [("rattr/models/context/_root_context.py", "RootContextBuilder.visit_relative_import", "state.current_file"),
+   ("rattr/models/context/_root_context.py", "RootContextBuilder.visit_starred_relative_import", "state.current_file"),
+   ("rattr/models/context/_util.py", "is_direct_call_to_method_on_constant", "LITERAL_VALUE_PREFIX"),
+   ("rattr/models/context/_util.py", "is_direct_call_to_method_on_literal", "LITERAL_VALUE_PREFIX")]
+
+/-- what `_root_context.py` imports from rattr at run time: AST helpers, symbols, the locator
+functions behind `Facts.mods` / `importFrom`'s parameters — nothing of `rattr.analyser` (where
+`is_excluded_name` and the annotation readers live). -/
+def importedHelpers : List (String × String) :=
+  [("rattr", "error"),
+   ("rattr.ast.util", "assignment_is_one_to_one"), ("rattr.ast.util", "assignment_targets"),
+   ("rattr.ast.util", "fullname_of"), ("rattr.ast.util", "has_lambda_in_rhs"),
+   ("rattr.ast.util", "has_namedtuple_declaration_in_rhs"), ("rattr.ast.util", "is_relative_import"),
+   ("rattr.ast.util", "is_starred_import"), ("rattr.ast.util", "namedtuple_init_signature_from_declaration"),
+   ("rattr.ast.util", "walruses_in_rhs"), ("rattr.codegen", "gen_import_from_stmt"), ("rattr.config", "Config"),
+   ("rattr.extra", "DictChanges"), ("rattr.models.context._context", "Context"),
+   ("rattr.models.context._symbol_table", "SymbolTable"), ("rattr.models.symbol._symbols", "Builtin"),
+   ("rattr.models.symbol._symbols", "CallInterface"), ("rattr.models.symbol._symbols", "Class"),
+   ("rattr.models.symbol._symbols", "Func"), ("rattr.models.symbol._symbols", "Import"),
+   ("rattr.models.symbol._symbols", "Name"), ("rattr.models.symbol._symbols", "PYTHON_BUILTINS"),
+   ("rattr.module_locator.util", "derive_absolute_module_name"),
+   ("rattr.module_locator.util", "derive_module_name_from_path"),
+   ("rattr.module_locator.util", "find_module_name_and_spec"),
+   ("rattr.module_locator.util", "is_in_import_blacklist")]
+
+/-- every function / method defined in `_root_context.py` (the builder's `visit_*` methods are
+`visitorNames`; a new helper would show up here). -/
+def sourceFunctions : List String :=
+  (["__init__", "register", "register_stmts"] ++ visitorNames).map ("RootContextBuilder." ++ ·) ++
+  ["__dummy_token", "__module_level_builtin", "__module_level_name", "compile_root_context",
+   "error_starred_import_outside_init", "make_import_symbol"]
+
+/-- the bodies (`ast.unparse` per statement, docstring dropped) of the builder methods that `register`
+/ `registerL` transcribe one-to-one: a definition is ONE unconditional `context.add`, a block statement
+ONE `register_stmts` over its blocks in this order. -/
+def builderBodies : List (String × List String) :=
+  [("visit_FunctionDef", ["self.context.add(Func.from_fn_def(node))"]),
+   ("visit_AsyncFunctionDef", ["self.context.add(Func.from_fn_def(node))"]),
+   ("visit_ClassDef", ["self.context.add(Class.from_class_def(node))"]),
+   ("visit_If", ["self.register_stmts(*node.body, *node.orelse)"]),
+   ("visit_For", ["self.register_stmts(*node.body, *node.orelse)"]),
+   ("visit_AsyncFor", ["self.register_stmts(*node.body, *node.orelse)"]),
+   ("visit_While", ["self.register_stmts(*node.body, *node.orelse)"]),
+   ("visit_Try", ["self.register_stmts(*node.body, *node.orelse, *node.finalbody, *(stmt for handler in node.handlers for stmt in handler.body))"]),
+   ("visit_With", ["self.register_stmts(*node.body)"]),
+   ("visit_AsyncWith", ["self.register_stmts(*node.body)"]),
+   ("register_stmts", ["for stmt in stmts: ;     self.register(stmt)"])]
+
 /-- `compile_root_context(module)` -/
 def compile (f : Facts) (builtins : List Str) (body : List Top) : Res :=
   registerL f body { ctx := initial builtins }
